@@ -131,3 +131,30 @@ func VerifC13_ConcurrentPuts() {
 }
 
 func VerifC13_ConcurrentPuts3() { VerifC13_ConcurrentPuts() }
+
+// Three concurrent puts to one target (a < b < c by sequence number): whatever the interleaving, the
+// outcome is that of some serial order of the three - the highest-seq put is accepted and its item is
+// the one that stays. Three holders are the smallest number that separates "one lock per store" from
+// lock tables whose entries can be dropped while a waiter is parked on them.
+func VerifC13_ThreePuts() {
+	w := NewWrapper(NewMemory(), 2000000*time.Hour)
+	a := verifMutable(1, 0, "a")
+	b := verifMutable(2, 0, "b")
+	c := verifMutable(3, 0, "c")
+	var errC error
+	done := make(chan struct{}, 3)
+	go func() { w.Put(a); done <- struct{}{} }()
+	go func() { w.Put(b); done <- struct{}{} }()
+	go func() { errC = w.Put(c); done <- struct{}{} }()
+	<-done
+	<-done
+	<-done
+	if verifCode(errC) == 206 {
+		return
+	}
+	cur, err := w.Get(a.Target())
+	verifAssert(err == nil && cur != nil, "C13 three puts: the target is served")
+	verifAssert(errC == nil, "C13 three puts: the highest-seq put is accepted in every serial order")
+	verifAssert(cur == c, "C13 three puts: the stored sequence number never decreases (the highest-seq item stays)")
+	verifReach("end")
+}
